@@ -25,12 +25,13 @@ Definition edits_of (m : msgix) : list edit :=
 Definition all_edits : list edit := ENone :: flat_map edits_of msgs.
 
 Definition aliases := [AUnknownField; AReordered; ANonMinimal].
-Definition claims := [ClKey KA; ClKey KB; ClKey KE; ClJunk; ClEmpty] ++
+Definition claims := [ClKey KA; ClKey KB; ClKey KE; ClJunk; ClEmpty; ClNoPayload; ClNotProto] ++
                      flat_map (fun k => map (ClAlias k) aliases) [KA; KB; KE].
 Definition fsigs := [FsBy KE SmGood; FsBy KE SmOtherStatic; FsBy KE SmNoPrefix;
                      FsBy KA SmOtherStatic; FsBy KB SmOtherStatic; FsJunk; FsEmpty].
+Definition earlies (i : bool) : list bool := if i then [false; true] else [false].
 Definition forges : list forge :=
-  flat_map (fun i => flat_map (fun c => map (mkForge i c) fsigs) claims) bools.
+  flat_map (fun i => flat_map (fun c => flat_map (fun s => map (mkForge i c s) (earlies i)) fsigs) claims) bools.
 
 Definition honest_scenarios : list scenario :=
   flat_map (fun si => flat_map (fun sr => map (fun e => mkSc si sr e None None) all_edits) (hsides KB)) (hsides KA).
@@ -71,14 +72,17 @@ Proof.
 Qed.
 
 Lemma claim_in : forall c, In c claims.
-Proof. intros c. destruct c as [[]| | |[] []]; cbn; in_list. Qed.
+Proof. intros c. destruct c as [[]| | |[] []| |]; cbn; in_list. Qed.
 
 Lemma wf_forge_in : forall f, wf_forge f = true -> In f forges.
 Proof.
-  intros [i c s] H. unfold forges. apply in_flat_map. exists i. split; [destruct i; cbn; auto|].
+  intros [i c s e] H. unfold forges. apply in_flat_map. exists i. split; [destruct i; cbn; auto|].
   apply in_flat_map. exists c. split; [apply claim_in|].
-  apply in_map_iff. exists s. split; [reflexivity|].
-  unfold wf_forge in H. cbn [f_sig] in H. destruct s as [[] []| |]; cbn in H; try discriminate H; cbn; in_list.
+  unfold wf_forge in H. cbn [f_sig f_early f_init] in H. apply andb_true_iff in H. destruct H as [H He].
+  apply in_flat_map. exists s. split.
+  - destruct s as [[] []| |]; cbn in H; try discriminate H; cbn; in_list.
+  - apply in_map_iff. exists e. split; [reflexivity|].
+    destruct i, e; cbn in He; try discriminate He; cbn; auto.
 Qed.
 
 Lemma wf_fault_in : forall sc f, wf_fault sc f = true -> In f all_faults.
